@@ -448,7 +448,16 @@ func (c *gctx) orNode(i int, label string) *ref.SNode {
 				continue
 			}
 			usedNames[name] = true
-			items = append(items, ref.OrItem{Name: name})
+			if c.draw(0, 4, fmt.Sprint(label, "RefSet", k)) == 0 {
+				// the reference written as a rule set, possibly admitting null as well
+				rs := []ref.SRule{StrRule("type", name)}
+				if c.draw(0, 1, fmt.Sprint(label, "RefSetNull", k)) == 0 {
+					rs = append(rs, BoolRule("nullable", true))
+				}
+				items = append(items, ref.OrItem{Rules: rs})
+			} else {
+				items = append(items, ref.OrItem{Name: name})
+			}
 			if t := c.g.Types[name]; !haveExample && t.Kind == ref.SLit {
 				n.Lit, n.Tok, n.Str = t.Lit, t.Tok, t.Str
 				haveExample = true
@@ -583,6 +592,12 @@ func (gc *GraphCase) Instance(t *rapid.T, n *ref.SNode, keysOpt bool, budget int
 			}
 			return ScalarOfKind(t, k, label+"OK")
 		default:
+			if ps := (&ref.SNode{Rules: it.Rules}); strings.HasPrefix(ps.TypeName(), "@") {
+				if v, ok := ps.BoolRule("nullable"); ok && v && rapid.Bool().Draw(t, label+"RSNull") {
+					return Null()
+				}
+				return typeInst(ps.TypeName())
+			}
 			if len(it.Rules) > 0 {
 				if hs := gc.SetHints[&it.Rules[0]]; len(hs) > 0 {
 					return Clone(rapid.SampledFrom(hs).Draw(t, label+"SH"))
